@@ -337,7 +337,10 @@ CHECKS = {'C01': {'level': 'exploration',
                  'transactions that return an error after their last step (one in six; in "abort-heavy" free-parallel programs every second one, '
                  'with mostly inserts): nothing of them may apply, be emitted or stay reserved | since round 10 the concurrent programs write one '
                  'store in four through column accessors at the cursor (txn.X(col).Set/Merge) and one committing transaction in four ends by '
-                 'obtaining an accessor that it only reads',
+                 'obtaining an accessor that it only reads | TestC13Big run for C08 (round 10): a snapshot taken while ONE transaction re-writes the '
+                 '66..140-byte strings of 32 770..36 000 rows (three commits of more than 1 MiB each, larger than a block of the s2 stream of the '
+                 'log tail); the COMPLETE file must restore without error, and every block holds all old or all new strings, the new ones in a '
+                 'prefix of the commit order',
          'assumptions': ['controlled-schedule parts: context switches only at the verif yield points; free-parallel part: whatever the Go scheduler '
                          'produces on 16 cores',
                          'writers do not insert while known finding f10 (in-flight reservations visible to snapshots) is active - counted'],
@@ -354,7 +357,12 @@ CHECKS = {'C01': {'level': 'exploration',
                     'shards': {'quick': 1, 'thorough': 8},
                     'timeout': {'quick': 900, 'thorough': 3400},
                     'shrinktime': '5s',
-                    'par': 8}]},
+                    'par': 8},
+                   {'run': '^TestC13Big$',
+                    'checks': {'quick': 3, 'thorough': 60},
+                    'shards': {'quick': 1, 'thorough': 4},
+                    'timeout': {'quick': 900, 'thorough': 3400},
+                    'env': {'VERIF_PROP': 'C08', 'GOMAXPROCS': 1}}]},
  'C09': {'level': 'exploration',
          'rule': 'controlled-schedule part: generated programs of 2..4 writer tasks (1..2 transactions each, 1..4 steps: merges and puts into SHARED '
                  'rows of 1..3 blocks through an additive int merge, an order-sensitive int merge v*3+d and an order-sensitive same-length string '
